@@ -131,13 +131,17 @@ def load_known_findings():
     return out
 
 
-def armed_group_obligations(rule, sites, groups, props_of=None):
-    """Armed-rule semantics that is insensitive to statement order and to expression text: sites are grouped by
-    (function, kind, object) = `idbase`; the table freezes how many sites of each group the engine proved on the
-    reviewed tree; a group with fewer proved sites now is a violation (reported at its first unproved site)."""
+def armed_group_obligations(rule, sites, groups, props_of=None, unproved=None):
+    """Armed-rule semantics that is insensitive to statement order, to expression text and to merging / splitting of
+    sites: sites are grouped by (function, kind, object) = `idbase`; the table freezes how many sites of each group the
+    engine proved (`groups`) and could not prove (`unproved`) on the reviewed tree.  A group is violated when a site
+    went from proved to unproved: fewer proved sites AND more unproved sites than on the reviewed tree (reported at its
+    first unproved site).  Sites that merely vanished (two loops merged into one, all remaining sites proved) and new
+    sites next to intact armed ones do not fire."""
     by = {}
     for s in sites:
         by.setdefault(s["idbase"], []).append(s)
+    unproved = unproved or {}
     obs = []
     for g, need in sorted(groups.items()):
         ss = by.get(g)
@@ -145,7 +149,7 @@ def armed_group_obligations(rule, sites, groups, props_of=None):
             continue        # the construct changed shape; the instance floor decides whether too many vanished
         good = [s for s in ss if s["proved"] is True]
         bad = [s for s in ss if s["proved"] is not True]
-        ok = len(good) >= need
+        ok = len(good) >= need or len(bad) <= unproved.get(g, 0)
         rep = (bad[0] if (bad and not ok) else ss[0])
         detail = ("%d of %d site(s) proved (armed: %d)" % (len(good), len(ss), need)) + \
                  ("; " + good[0]["detail"] if ok and good else "") + \
